@@ -167,6 +167,19 @@ impl Storage {
             earliest_uncommited_wal_id
         );
         let wal_files = writer.list(wal_dir).unwrap();
+        // Anything that is not a `<id>.wal` segment is the leftover of a write that was interrupted
+        // before its final rename; such a write was never acknowledged.
+        let (wal_files, leftovers): (Vec<_>, Vec<_>) = wal_files
+            .into_iter()
+            .partition(|path| path.extension().is_some_and(|ext| ext == "wal"));
+        for path in leftovers {
+            if readonly {
+                log::info!("Skipping incomplete wal file {}", path.display());
+            } else {
+                log::info!("Deleting incomplete wal file {}", path.display());
+                writer.delete(&path).unwrap();
+            }
+        }
         let num_wal_files = wal_files.len();
         log::info!("Found {} wal segments", wal_files.len());
 
